@@ -184,8 +184,22 @@ impl<'a> Frame<'a> {
         R: BytesReader<'a>,
     {
         let kind = match bytes_reader.get_varint() {
-            Some(kind_id) => FrameKind::parse(kind_id).ok_or(ParseError::UnknownFrame)?,
+            Some(kind_id) => FrameKind::parse(kind_id),
             None => return Ok(None),
+        };
+
+        let Some(kind) = kind else {
+            // Unknown frames are skipped whole: length and payload belong to the frame
+            let payload_len = match bytes_reader.get_varint() {
+                Some(payload_len) => payload_len.into_inner() as usize,
+                None => return Ok(None),
+            };
+
+            if bytes_reader.get_bytes(payload_len).is_none() {
+                return Ok(None);
+            }
+
+            return Err(ParseError::UnknownFrame);
         };
 
         if matches!(kind, FrameKind::WebTransport) {
@@ -224,7 +238,22 @@ impl<'a> Frame<'a> {
         use crate::bytes::BytesReaderAsync;
 
         let kind_id = reader.get_varint().await?;
-        let kind = FrameKind::parse(kind_id).ok_or(IoReadError::Parse(ParseError::UnknownFrame))?;
+
+        let Some(kind) = FrameKind::parse(kind_id) else {
+            // Unknown frames are skipped whole: length and payload belong to the frame
+            let payload_len = reader
+                .get_varint()
+                .await
+                .map_err(|e| match e {
+                    bytes::IoReadError::ImmediateFin => bytes::IoReadError::UnexpectedFin,
+                    _ => e,
+                })?
+                .into_inner();
+
+            Self::skip_payload_async(reader, payload_len).await?;
+
+            return Err(IoReadError::Parse(ParseError::UnknownFrame));
+        };
 
         if matches!(kind, FrameKind::WebTransport) {
             let session_id =
@@ -260,6 +289,33 @@ impl<'a> Frame<'a> {
 
             Ok(Self::new(kind, Cow::Owned(payload), None))
         }
+    }
+
+    /// Reads and discards `payload_len` bytes from `reader` (without allocating).
+    #[cfg(feature = "async")]
+    async fn skip_payload_async<R>(reader: &mut R, mut payload_len: u64) -> Result<(), IoReadError>
+    where
+        R: AsyncRead + Unpin + ?Sized,
+    {
+        use crate::bytes::BytesReaderAsync;
+
+        let mut scratch = [0; 256];
+
+        while payload_len > 0 {
+            let chunk_len = std::cmp::min(payload_len, scratch.len() as u64) as usize;
+
+            reader
+                .get_buffer(&mut scratch[..chunk_len])
+                .await
+                .map_err(|e| match e {
+                    bytes::IoReadError::ImmediateFin => bytes::IoReadError::UnexpectedFin,
+                    _ => e,
+                })?;
+
+            payload_len -= chunk_len as u64;
+        }
+
+        Ok(())
     }
 
     /// Reads a [`Frame`] from a [`BufferReader`].
